@@ -659,7 +659,11 @@ def task_concrete():
 
 def tasks(tier):
     from . import c18_layered
-    return [('contracts.c18', n, {}) for n in ('task_keys', 'task_precedence', 'task_values', 'task_run', 'task_concrete')] + c18_layered.tasks(tier)
+    t = [('contracts.c18', n, {}) for n in ('task_keys', 'task_precedence', 'task_values', 'task_run', 'task_concrete')] + c18_layered.tasks(tier)
+    # dependency closure: what --save / --cache store is Simulation.to_dict: the stored solver options carry the forward tolerance whatever the
+    # run did before (Simulation contracts of C12, re-run here)
+    t += [('contracts.c12', 'task_op', dict(op='to_dict'))]
+    return t
 
 
 LEVEL = ('The real configuration parser is executed by the control executor on an abstract ConfigParser: recognised key sets are observed from the parser itself, every recognised key is shown to reach its '
